@@ -21,7 +21,7 @@ func intrinsicEffect(name string) (string, bool) {
 	case strings.HasPrefix(name, "(*sync.Mutex)."), strings.HasPrefix(name, "(*sync.RWMutex)."):
 		return "none", true
 	case strings.HasPrefix(name, repoPfx+"logging."), strings.HasPrefix(name, "math."), strings.HasPrefix(name, "runtime.Gosched"),
-		strings.HasPrefix(name, "time.Sleep"), strings.HasPrefix(name, "strings."), strings.HasPrefix(name, "strconv."),
+		strings.HasPrefix(name, "time.Sleep"), name == repoPfx+"util.Sleep", strings.HasPrefix(name, "strings."), strings.HasPrefix(name, "strconv."),
 		strings.HasPrefix(name, "reflect.DeepEqual"), name == "(time.Duration).Nanoseconds", name == "(time.Duration).Milliseconds":
 		return "none", true
 	case strings.HasPrefix(name, "fmt.Sprint"), strings.HasPrefix(name, "fmt.Errorf"), strings.HasPrefix(name, "errors.New"),
@@ -131,7 +131,7 @@ func (x *Engine) intrinsic(fr *Frame, st *State, name string, callee *ssa.Functi
 			return Val{}, true
 		}
 		return resultVal(sig, x.freshResults(st, sig, "lg")), true
-	case name == "runtime.Gosched", name == "time.Sleep":
+	case name == "runtime.Gosched", name == "time.Sleep", name == repoPfx+"util.Sleep":
 		x.abstracted(name + " is a no-op")
 		return Val{}, true
 	case name == repoPfx+"util.CurrentTimeMillis", name == repoPfx+"util.CurrentTimeNano":
@@ -174,8 +174,9 @@ func (x *Engine) intrinsic(fr *Frame, st *State, name string, callee *ssa.Functi
 		x.abstracted(name + ": opaque result")
 		return resultVal(sig, x.freshResults(st, sig, "s")), true
 	case name == "reflect.DeepEqual":
-		x.declRaw("fun:deq", "(declare-fun deq (Iface Iface) Bool)\n(assert (forall ((a Iface)) (! (deq a a) :pattern ((deq a a)))))")
+		x.declRaw("fun:deq", "(declare-fun deq (Iface Iface) Bool)")
 		x.abstracted("reflect.DeepEqual: uninterpreted, reflexive")
+		x.emit(fmt.Sprintf("(assert (=> (= %s %s) (deq %s %s)))", args[0].T, args[1].T, args[0].T, args[1].T))
 		return Val{T: fmt.Sprintf("(deq %s %s)", args[0].T, args[1].T), Typ: rt()}, true
 	case name == "(time.Duration).Nanoseconds":
 		return Val{T: args[0].T, Typ: rt()}, true
